@@ -225,6 +225,14 @@ def run(rep, tier, seed, replay=None):
         FA.flexalg_k(rep, 'C04', binp, (kseed + 404) & 0x7fffffff, 1500 if big else 300, payload_is_broken=True)
         samples.extend(rep.cov.get('samples', []))
 
+    # ---- deterministic family: wrapping flex rows filled almost exactly (n items of 1/n of the width) at power-of-two scales 2^-14 .. 2^10
+    if not replay:
+        rcf, outf = vh(binp, ['c04', 'fullline'], timeout=120)
+        if 'FULLLINE' not in outf:
+            rep.add_broken('search', 'vh c04 fullline', outf[-400:])
+        for l_ in [l_ for l_ in outf.split('\n') if l_.startswith('FAIL fullline')][:3]:
+            rep.add_violation('scaling changes which items fit on a flex line: ' + l_[:300], {'cmd': 'vh c04 fullline'})
+        rep.cov['fullline_family_cases'] = 336
     # ---- S: the property on the implementation
     n = 2000000 if big else 150000
     fails, summary = [], {}
